@@ -769,7 +769,11 @@ class TestCase(unittest.TestCase):
                 reraise(*exc_info)
         else:
             self.addCleanup(fixture.cleanUp)
-            self.addCleanup(gather_details, fixture.getDetails(), self.getDetails())
+            # The fixture's details are gathered when the cleanup runs, not
+            # now: a fixture may go on attaching details while it is in use.
+            self.addCleanup(
+                lambda: gather_details(fixture.getDetails(), self.getDetails())
+            )
             return fixture
 
     def setUp(self):
